@@ -821,6 +821,9 @@ func checkC04(c *Ctx, r *Report) {
 			}
 		}
 		roots = append(roots, c.fnMust("", "*Field.ExtractFrom")) // the typed access path of the builder
+		// ... and the loop that calls it for every field of a response: an order a field selects must
+		// not become the default of the fields decoded after it
+		roots = append(roots, c.fnMust("", "BuilderRequest.ExtractFields"), c.fnMust("", "BuilderRequest.extractRegisterFields"))
 		t := runC13(c, roots, payloadFields(c, "packet"))
 		r.instance("R4.5", len(roots))
 		seen := map[string]bool{}
